@@ -181,6 +181,9 @@ func joinPath(a, b string) string {
 	if a == "" {
 		return b
 	}
+	if b == "" {
+		return a
+	}
 	return a + "." + b
 }
 
@@ -285,6 +288,9 @@ func rangeFact(t types.Type, s string) string {
 	ii, ok := intInfoOf(t)
 	if !ok || kindOf(t) != KInt {
 		return ""
+	}
+	if b, isB := t.(*types.Basic); isB && b.Kind() == types.UntypedInt {
+		return "" // mathematical integer (spec values, ghost fields)
 	}
 	lo, hi := ii.minMax()
 	return fmt.Sprintf("(and (<= %s %s) (<= %s %s))", lo, s, s, hi)
